@@ -6,10 +6,12 @@ import (
 	"io"
 	"iter"
 	"path/filepath"
+	"sync"
 
 	"google.golang.org/protobuf/proto"
 	"reduction.dev/reduction/proto/snapshotpb"
 	"reduction.dev/reduction/storage/locations"
+	"reduction.dev/reduction/util/verifhook"
 	verif "reduction.dev/reduction/zz_verif"
 )
 
@@ -19,6 +21,16 @@ type verifLoc struct {
 	paths []string
 	data  [][]byte
 	log   []string
+	// points: every write, listing and removal is a named scheduling point, so that storage
+	// operations of concurrent goroutines can overtake one another (schedule mode 1)
+	points bool
+	mu     sync.Mutex
+}
+
+func (l *verifLoc) point() {
+	if l.points {
+		verifhook.Point("storage-op")
+	}
 }
 
 func (l *verifLoc) find(p string) int {
@@ -35,6 +47,9 @@ func (l *verifLoc) Write(path string, r io.Reader) (string, error) {
 	if err != nil {
 		return "", err
 	}
+	l.point()
+	l.mu.Lock()
+	defer l.mu.Unlock()
 	l.log = append(l.log, "write "+path)
 	if i := l.find(path); i >= 0 {
 		l.data[i] = b
@@ -53,7 +68,16 @@ func (l *verifLoc) Read(path string) ([]byte, error) {
 }
 
 func (l *verifLoc) List() iter.Seq2[string, error] {
-	// lexicographic order by path
+	l.point()
+	l.mu.Lock()
+	defer l.mu.Unlock()
+	// lexicographic order by path (a snapshot of the listing at the time of the call)
+	paths := append([]string(nil), l.paths...)
+	return verifListOf(paths)
+}
+
+func verifListOf(lpaths []string) iter.Seq2[string, error] {
+	l := &verifLoc{paths: lpaths}
 	idx := make([]int, len(l.paths))
 	for i := range idx {
 		idx[i] = i
@@ -91,6 +115,9 @@ func (l *verifLoc) Copy(src, dst string) error {
 }
 
 func (l *verifLoc) Remove(paths ...string) error {
+	l.point()
+	l.mu.Lock()
+	defer l.mu.Unlock()
 	for _, p := range paths {
 		if i := l.find(p); i >= 0 {
 			l.log = append(l.log, "remove "+p)
